@@ -148,8 +148,8 @@ def closedJson (env : Validate.Env) (j : Json) : Except String Json := do
       else if Raw.refOrderMatters sc t then skip "reference set order"
       else
         let (cfg, T) := F d (sidecarOf g d)
-        match (HedVerif.Closed.consulted cfg T).find? (HedVerif.Closed.textUnmodelled env) with
-        | some x => skip (if HedVerif.Closed.hasDelay x then "Delay group" else "string outside Validate")
+        match HedVerif.Closed.skipReason env kB cfg T with     -- consulted texts of the CLOSED configuration, tie-sensitive tables
+        | some (w, _) => skip w
         | none =>
           if T.any (HedVerif.Closed.rowSplit env kB cfg) then skip "malformed cell in a checked row"
           else match tableClosed env kB F g d with     -- = `Tabular.validateClosedRaw` (`C16.raw_table_step`)
